@@ -559,9 +559,44 @@ static void fam_long(void)
 		}
 }
 
+/* ---- family 6: wide containers (array and table growth inside the parser) ---- */
+static void fam_wide(void)
+{
+	cur_fam = "wide-containers";
+	static const int counts[] = {11, 12, 22, 32, 33, 43, 65, 129, 300};
+	for (unsigned c = 0; c < sizeof counts / sizeof counts[0]; c++)
+		for (int kind = 0; kind < 3; kind++)
+		{
+			int n = counts[c];
+			sb_reset(&txt);
+			sb_putc(&txt, kind ? '{' : '[');
+			for (int i = 0; i < n; i++)
+			{
+				if (i)
+					sb_puts(&txt, i % 3 ? "," : " ,\n");
+				if (kind)
+					/* kind 2: every 7th name repeats an earlier one (last value wins, first position kept) */
+					sb_printf(&txt, "\"k%d\":", (kind == 2 && i % 7 == 6) ? i / 2 : i);
+				if (i % 5 == 0)
+					sb_printf(&txt, "\"v%d\\n\"", i);
+				else if (i % 5 == 1)
+					sb_printf(&txt, "%d.5e%d", i, i % 9);
+				else if (i % 5 == 2)
+					sb_puts(&txt, "[null,{}]");
+				else
+					sb_printf(&txt, "%d", i * 1000003);
+			}
+			sb_putc(&txt, kind ? '}' : ']');
+			set_text(txt.p, txt.n);
+			all_modes();
+		}
+}
+
 static void enumerate(void)
 {
 	const char *only = mc_opt("fam", "");
+	if (!*only || !strcmp(only, "wide"))
+		fam_wide();
 	if (!*only || !strcmp(only, "long"))
 		fam_long();
 	if (!*only || !strcmp(only, "escapes"))
